@@ -170,3 +170,30 @@ Proof.
   - rewrite Eb in Hp; destruct Hp.
   - split; [discriminate|exact Hp].
 Qed.
+
+(* ---- at most one lock acquisition on every path ---- *)
+Lemma count_locks_app a b : count_locks (a ++ b) = count_locks a + count_locks b.
+Proof. induction a as [|e a IH]; cbn [app count_locks]; [reflexivity|]. destruct e; cbn [count_locks]; rewrite ?IH; reflexivity. Qed.
+
+Lemma acq_in_max f a alts : In a alts -> acq f a <= fold_right (fun x m => Nat.max (acq f x) m) 0 alts.
+Proof.
+  induction alts as [|x alts IH]; intros H; [destruct H|]. cbn [fold_right].
+  destruct H as [->|H]; [apply Nat.le_max_l|]. etransitivity; [apply IH; exact H|apply Nat.le_max_r].
+Qed.
+
+Theorem acq_sound s tr o : exec s tr o -> forall fuel, acq fuel s <= 1 -> count_locks tr <= acq fuel s.
+Proof.
+  induction 1 as [w|w|w|w n|g| | | |x l tr o Ho Hx IHx|x l tr1 tr2 o Hx IHx Hl IHl
+                  |alts a tr o Hin Ha IHa|b|b tr1 tr2 o1 o Ho1 Hb IHb Hl IHl|b tr Hb IHb];
+    intros fuel Hle; (destruct fuel as [|f]; [cbn [acq] in Hle; lia|]); cbn [acq count_locks] in *; try lia.
+  - (* first statement of a sequence returns / breaks *)
+    specialize (IHx f). cbn [fold_right] in *. lia.
+  - cbn [fold_right] in *. rewrite count_locks_app.
+    specialize (IHx f ltac:(lia)).
+    specialize (IHl (S f)). cbn [acq] in IHl. specialize (IHl ltac:(lia)). lia.
+  - pose proof (acq_in_max f a alts Hin) as Hm. specialize (IHa f ltac:(lia)). lia.
+  - destruct (Nat.eqb (acq f b) 0) eqn:E; [|lia]. apply Nat.eqb_eq in E.
+    rewrite count_locks_app. specialize (IHb f ltac:(lia)).
+    specialize (IHl (S f)). cbn [acq] in IHl. rewrite E in IHl. cbn [Nat.eqb] in IHl. specialize (IHl ltac:(lia)). lia.
+  - destruct (Nat.eqb (acq f b) 0) eqn:E; [|lia]. apply Nat.eqb_eq in E. specialize (IHb f ltac:(lia)). lia.
+Qed.
